@@ -28,12 +28,27 @@ theorem ready_after_begin (cfg : Cfg) (s : St) (h : Reach cfg s) (hr : cfg.waitR
     hI.ready (by rw [hc]; exact hr) w hw (by rw [readyUpto_post hpost, hc]; exact hinit)
   exact ⟨(hI.wk w hw).bfLog hbf, fun _ => hbf⟩
 
-/-- when the pool context has been left (no join timeout), no worker is running — replaced workers included -/
-theorem exit_joins_all (cfg : Cfg) (s : St) (h : Reach cfg s) (hd : s.cpc = .done) : AllExited s := by
-  obtain ⟨hI, _⟩ := LInv_reach h
+/-- a worker is at `.ending` (its wid posted, `end()` still to run) only in a pool with a finite join timeout -/
+theorem ending_only_joinTimeout (cfg : Cfg) (s : St) (h : Reach cfg s) (w : Worker) (hw : w ∈ s.workers)
+    (hpc : w.pc = .ending) : cfg.joinTimeout = true := by
+  obtain ⟨hI, hc⟩ := LInv_reach h
+  rw [← hc]; exact (hI.wk w hw).ending hpc
+
+theorem exited_of_gone {cfg : Cfg} {w : Worker} (hW : WInv cfg w) (hjt : cfg.joinTimeout = false) (hg : gone w.pc = true) :
+    w.pc = .exited := by
+  cases hpc : w.pc <;> rw [hpc] at hg <;> first | rfl | cases hg | skip
+  have := hW.ending hpc; rw [hjt] at this; cases this
+
+/-- when the pool context has been left — of a pool WITHOUT a join timeout (`join_timeout=None`) —, no worker is running,
+replaced workers included.  (With a finite join timeout this is false: `exit_returns_with_running_worker` in
+`Proofs/PoolJoinTimeout.lean`; `imap_maximal_all_exited` / `eventually_all_exited` there is what remains.) -/
+theorem exit_joins_all (cfg : Cfg) (hjt : cfg.joinTimeout = false) (s : St) (h : Reach cfg s) (hd : s.cpc = .done) :
+    AllExited s := by
+  obtain ⟨hI, hc⟩ := LInv_reach h
   intro w hw
-  by_cases hne : w.pc = .exited
-  · exact hne
-  · exact hI.done hd w.wid (hI.listed w hw hne) w hw rfl
+  apply exited_of_gone (hI.wk w hw) (by rw [hc]; exact hjt)
+  by_cases hg : gone w.pc = true
+  · exact hg
+  · exact hI.done hd w.wid (hI.listed w hw (by simpa using hg)) (by rw [hc]; exact hjt) w hw rfl
 
 end WindVerif.Pool
